@@ -122,8 +122,13 @@ func nativeReplay(hroot, pkg, pkgName string, harnessNames []string, items []rep
 		repl[virt] = real
 	}
 	var tb strings.Builder
-	fmt.Fprintf(&tb, "package %s\n\nimport (\n\t\"testing\"\n\tzz \"%s/zzverif\"\n)\n\n", pkgName, modPath)
-	tb.WriteString("func TestZZReplay(t *testing.T) {\n\tzz.NativeRunAll(map[string]func(){\n")
+	if pkgName == "zzverif" {
+		fmt.Fprintf(&tb, "package %s\n\nimport \"testing\"\n\n", pkgName)
+		tb.WriteString("func TestZZReplay(t *testing.T) {\n\tNativeRunAll(map[string]func(){\n")
+	} else {
+		fmt.Fprintf(&tb, "package %s\n\nimport (\n\t\"testing\"\n\tzz \"%s/zzverif\"\n)\n\n", pkgName, modPath)
+		tb.WriteString("func TestZZReplay(t *testing.T) {\n\tzz.NativeRunAll(map[string]func(){\n")
+	}
 	seenName := map[string]bool{}
 	for _, h := range harnessNames {
 		if seenName[h] {
@@ -757,6 +762,55 @@ func cmdReplay(args []string) int {
 			rc = 2
 		} else if strings.HasPrefix(o.Result, "assert-fail") || strings.HasPrefix(o.Result, "panic") {
 			rc = 1
+		}
+	}
+	return rc
+}
+
+// cmdSelftest: conformance of the engine against native Go: every path of the selftest
+// harnesses (package zzverif) gets a witness vector, is replayed natively, and the Observe
+// traces must be identical.
+func cmdSelftest(args []string) int {
+	hroot := filepath.Join(verifDir, "harness")
+	prog, spkgs, err := loadProgram(hroot, []string{"./errs"})
+	if err != nil {
+		fmt.Println("selftest: load failed:", err)
+		return 2
+	}
+	names := []string{"SelftestCore"}
+	rc := 0
+	for _, name := range names {
+		fn := findHarness(spkgs, name)
+		if fn == nil {
+			fmt.Println("selftest: harness not found:", name)
+			return 2
+		}
+		cfg := &Config{Unwind: 60, MaxDepth: 200, Solver: "z3-new", TimeoutMs: 20000, Workers: 8, MaxPaths: 20000,
+			MapOrder: 1, Params: map[string]int64{}, Known: map[string]bool{}, Validate: 1000}
+		res := Explore(prog, fn, cfg)
+		var items []replayItem
+		for _, w := range res.Witnesses {
+			items = append(items, replayItem{Harness: name, Vector: w.Vector})
+		}
+		scratch, _ := os.MkdirTemp("", "gosmt-selftest-")
+		outs, raw, err := nativeReplay(hroot, "./errs", "errs", []string{name}, items, scratch)
+		os.RemoveAll(scratch)
+		if err != nil || len(outs) != len(items) || (len(outs) > 0 && outs[0].Result == "") {
+			fmt.Println("selftest: native replay failed\n" + raw)
+			return 2
+		}
+		bad := 0
+		for i, o := range outs {
+			if o.Result != "completed" || strings.Join(o.Observe, "\n") != strings.Join(res.Witnesses[i].Observe, "\n") {
+				bad++
+				if bad <= 3 {
+					fmt.Printf("selftest MISMATCH %s vector %v\n engine: %q\n native: %q (%s)\n", name, items[i].Vector, res.Witnesses[i].Observe, o.Observe, o.Result)
+				}
+			}
+		}
+		fmt.Printf("selftest %s: paths=%d witnesses=%d mismatches=%d inconclusive=%v\n", name, res.Paths, len(items), bad, res.Inconclusive)
+		if bad > 0 || len(res.Inconclusive) > 0 || len(items) == 0 {
+			rc = 2
 		}
 	}
 	return rc
